@@ -40,9 +40,22 @@ Fixpoint span_digits (s : str) : str * str :=
 (* (\x1b\[|\x9b) at the start of s: the two alternatives exclude each other *)
 Definition match_csi (s : str) : option str :=
   match s with
-  | 27 :: 91 :: r => Some r
-  | 155 :: r => Some r
-  | _ => None
+  | c :: r =>
+      if c =? 27 then
+        match r with
+        | c2 :: r2 => if c2 =? 91 then Some r2 else None
+        | [] => None
+        end
+      else if c =? 155 then Some r
+      else None
+  | [] => None
+  end.
+
+(* a literal character of the pattern *)
+Definition expect (x : char) (s : str) : option str :=
+  match s with
+  | c :: r => if c =? x then Some r else None
+  | [] => None
   end.
 
 (* CSI \d+ ; \d+ R at the start of s: (row digits, column digits, what follows R) *)
@@ -51,11 +64,11 @@ Definition match_report (s : str) : option (str * str * str) :=
   | None => None
   | Some r =>
       let (rdg, r1) := span_digits r in
-      match rdg, r1 with
-      | _ :: _, 59 :: r2 =>
+      match rdg, expect 59 r1 with
+      | _ :: _, Some r2 =>
           let (cdg, r3) := span_digits r2 in
-          match cdg, r3 with
-          | _ :: _, 82 :: r4 => Some (rdg, cdg, r4)
+          match cdg, expect 82 r3 with
+          | _ :: _, Some r4 => Some (rdg, cdg, r4)
           | _, _ => None
           end
       | _, _ => None
